@@ -44,6 +44,10 @@ def exc_class(e: BaseException) -> str:
         return "FileExistsError"
     if isinstance(e, TypeError):
         return "TypeError"
+    if type(e).__name__ in ("ContainsGroupError", "ContainsArrayError"):
+        # zarr 3.4 derives these from ValueError; the model (KV.lean, exclusive create) names them, and a
+        # create-on-existing-node is a different event from geff's own ValueError: keep them apart
+        return "other:" + type(e).__name__
     if isinstance(e, ValueError):
         return "ValueError"
     return "other:" + type(e).__name__
